@@ -8,7 +8,6 @@ import (
 	"path/filepath"
 	"sort"
 
-	"github.com/thomasjungblut/go-sstables/skiplist"
 	"github.com/thomasjungblut/go-sstables/sstables"
 	"verif/internal/core"
 )
@@ -25,13 +24,95 @@ type c08Case struct {
 	First int   `json:"first"`          // table code of the oldest table
 	Opts  int   `json:"opts"`           // options per key: 3 = {absent,value,tombstone}, 4 adds the empty value
 	Only  []int `json:"only,omitempty"` // replay: exact list of table codes
+	// Legacy > 0: stacks that contain fixture table Legacy-1 of the repository (written by earlier versions of the
+	// library); Pos = 0 fixture oldest, 1 fixture newest, 2 fixture between two current tables (First = oldest code)
+	Legacy int `json:"legacy,omitempty"`
+	Pos    int `json:"pos,omitempty"`
 }
 
 var c08Keys = [][]byte{{}, []byte("a"), []byte("b")}
 
+// c08Fold: family 5 = keys compared ignoring case; per key slot {absent, lower=value, upper=value, lower=tombstone, upper=tombstone}
+var c08FoldKeys = [][2][]byte{{[]byte("a"), []byte("A")}, {[]byte("b"), []byte("B")}}
+
+// keys of the tables stacked with a legacy fixture (fixtures hold the 4-byte keys 1..7): below, inside, the max key, above
+var c08LegacyKeys = [][]byte{{0, 0, 0, 0}, {0, 0, 0, 3}, {0, 0, 0, 7}, {0, 0, 0, 9}}
+
+type c08Tab struct {
+	Dir string
+	KVs []kv
+}
+
+type c08Fam struct {
+	cmp    string
+	norm   func([]byte) string
+	probes [][]byte
+	bounds [][]byte
+}
+
+func c08Family(opts int, legacy bool) c08Fam {
+	switch {
+	case legacy:
+		b := [][]byte{{}, {0, 0, 0, 0}, {0, 0, 0, 3}, {0, 0, 0, 4}, {0, 0, 0, 7}, {0, 0, 0, 8}, {0, 0, 0, 9}, {0, 0, 0, 10}}
+		return c08Fam{"", func(k []byte) string { return string(k) }, b, b}
+	case opts == 5:
+		return c08Fam{"fold", func(k []byte) string { return string(bytes.ToLower(k)) },
+			[][]byte{{}, []byte("a"), []byte("A"), []byte("b"), []byte("B"), []byte("c"), []byte("0")},
+			[][]byte{{}, []byte("0"), []byte("a"), []byte("A"), []byte("aa"), []byte("b"), []byte("B"), []byte("c")}}
+	}
+	return c08Fam{"", func(k []byte) string { return string(k) },
+		[][]byte{{}, []byte("a"), []byte("b"), []byte("c"), []byte("0")},
+		[][]byte{{}, []byte("0"), []byte("a"), []byte("aa"), []byte("b"), []byte("c")}}
+}
+
+// loaderFor: the slice and disk indexes are byte-ordered by construction (they do not take a comparator); under a
+// custom comparator the tables are opened with the skip-list index, the loader that is parameterised by one.
+func loaderFor(cmpName string) string {
+	if cmpName != "" {
+		return "skiplist"
+	}
+	return ""
+}
+
+func c08NumTables(opts int) int {
+	if opts == 5 {
+		return ipow(5, len(c08FoldKeys))
+	}
+	return ipow(opts, len(c08Keys))
+}
+
+// c08LegacyTable: digit per key of c08LegacyKeys: 0 absent, 1 value, 2 tombstone
+func c08LegacyTable(code, slot int) []kv {
+	var out []kv
+	for _, k := range c08LegacyKeys {
+		d := code % 3
+		code /= 3
+		switch d {
+		case 1:
+			out = append(out, kv{k, []byte(fmt.Sprintf("n%d-%x", slot, k))})
+		case 2:
+			out = append(out, kv{k, nil})
+		}
+	}
+	return out
+}
+
 // table code -> content for a slot. digit per key: 0 absent, 1 value, 2 tombstone, 3 empty value
 func c08Table(code, slot, opts int) []kv {
 	var out []kv
+	if opts == 5 {
+		for _, pair := range c08FoldKeys {
+			d := code % 5
+			code /= 5
+			switch d {
+			case 1, 2:
+				out = append(out, kv{pair[d-1], []byte(fmt.Sprintf("v%d%s", slot, pair[d-1]))})
+			case 3, 4:
+				out = append(out, kv{pair[d-3], nil})
+			}
+		}
+		return out
+	}
 	for ki, k := range c08Keys {
 		d := code % opts
 		code /= opts
@@ -79,7 +160,27 @@ func (c c08) Run(ctx *core.Ctx) error {
 			cases = append(cases, core.J(c08Case{K: k, First: f, Opts: 4}))
 		}
 	}
-	ctx.Ev.Rule = "every list of k tables (oldest to newest), each table assigning to each key of {\"\", a, b} one of {absent, value v<slot><key>, tombstone} (second family adds the empty value): stacked reader Get/Contains for 5 keys, Scan, ScanStartingAt and ScanRange for all bounds in {\"\",0,a,aa,b,c}; MergeCompact with both exported reductions into a fresh table and read back; Merge for key-disjoint lists. distinct = list of table codes; non-trivial = at least two tables share a key"
+	// keys that are equal under the comparator without being equal as bytes
+	for k := 1; k <= 3; k++ {
+		for f := 0; f < 25; f++ {
+			cases = append(cases, core.J(c08Case{K: k, First: f, Opts: 5}))
+		}
+	}
+	// stacks that contain a table written by an earlier version of the library (the repository's fixtures)
+	nl := 0
+	for fi := range legacyTables() {
+		for pos := 0; pos < 2; pos++ {
+			cases = append(cases, core.J(c08Case{Legacy: fi + 1, Pos: pos, First: -1}))
+			nl++
+		}
+		for f := 0; f < 81; f += 4 { // fixture between two current tables: every 4th oldest table x all newest tables
+			cases = append(cases, core.J(c08Case{Legacy: fi + 1, Pos: 2, First: f}))
+			nl++
+		}
+	}
+	ctx.Ev.Bounds["legacy_fixture_tables"] = len(legacyTables())
+	ctx.Ev.Bounds["comparator_families"] = "bytes; ASCII case-insensitive (keys a/A, b/B: equal under the comparator, different as bytes)"
+	ctx.Ev.Rule = "every list of k tables (oldest to newest), each table assigning to each key of {\"\", a, b} one of {absent, value v<slot><key>, tombstone} (second family adds the empty value): stacked reader Get/Contains for 5 keys, Scan, ScanStartingAt and ScanRange for all bounds in {\"\",0,a,aa,b,c}; MergeCompact with both exported reductions into a fresh table and read back; Merge for key-disjoint lists. The same for lists of up to 3 tables under a case-insensitive comparator (per key slot absent / either spelling as value or tombstone), and for stacks of each legacy fixture table of the repository with every current table over keys {below, inside, max, above} (fixture oldest, newest, or between two current tables). distinct = list of table codes; non-trivial = at least two tables share a key"
 	ctx.Ev.Bounds["max_tables_3_options"] = map[bool]int{false: 3, true: 4}[ctx.Tier == "thorough"]
 	ctx.Ev.Bounds["max_tables_4_options"] = k4
 	rs := ctx.Pmap(cases)
@@ -99,7 +200,11 @@ func (c c08) Case(w *core.WCtx, payload json.RawMessage) core.Result {
 	if cs.Opts == 0 {
 		cs.Opts = 3
 	}
-	ntab := ipow(cs.Opts, len(c08Keys))
+	if cs.Legacy > 0 {
+		return c.legacyCase(w, cs)
+	}
+	ntab := c08NumTables(cs.Opts)
+	fam := c08Family(cs.Opts, false)
 	base := w.Dir()
 	// build every (slot, code) directory this case can need
 	built := map[[2]int]string{}
@@ -110,7 +215,7 @@ func (c c08) Case(w *core.WCtx, payload json.RawMessage) core.Result {
 		}
 		d := filepath.Join(base, fmt.Sprintf("s%d_t%d", slot, code))
 		mustMkdir(d)
-		if err := writeTable(d, c08Table(code, slot, cs.Opts), tblW{Writer: "stream", DataComp: 2, IndexComp: 0}); err != nil {
+		if err := writeTable(d, c08Table(code, slot, cs.Opts), tblW{Writer: "stream", DataComp: 2, IndexComp: 0, Cmp: fam.cmp}); err != nil {
 			panic(fmt.Sprintf("cannot build input table: %v", err))
 		}
 		built[key] = d
@@ -148,7 +253,11 @@ func (c c08) Case(w *core.WCtx, payload json.RawMessage) core.Result {
 		if len(r.Viol) >= 6 {
 			break
 		}
-		c.checkList(list, cs.Opts, need, outDir, &r)
+		var tabs []c08Tab
+		for sl, code := range list {
+			tabs = append(tabs, c08Tab{need(sl, code), c08Table(code, sl, cs.Opts)})
+		}
+		c.checkTabs(tabs, fam, core.J(c08Case{K: len(list), Opts: cs.Opts, Only: list}), fmt.Sprint(cs.Opts, list), outDir, &r)
 	}
 	r.Outcome = fmt.Sprintf("k=%d opts=%d ok=%v", cs.K, cs.Opts, len(r.Viol) == 0)
 	if cs.K == 2 && cs.First == 5 && cs.Opts == 3 {
@@ -157,15 +266,16 @@ func (c c08) Case(w *core.WCtx, payload json.RawMessage) core.Result {
 	return r
 }
 
-func (c c08) checkList(list []int, opts int, need func(slot, code int) string, outDir string, r *core.Result) {
+func (c c08) checkTabs(tabs []c08Tab, fam c08Fam, replay json.RawMessage, id string, outDir string, r *core.Result) {
+	comparator := cmpFor(fam.cmp)
+	cmpF := func(a, b []byte) int { return comparator.Compare(a, b) }
 	viol := func(sig, f string, a ...any) {
 		if len(r.Viol) < 8 {
-			var tabs []string
-			for s, code := range list {
-				tabs = append(tabs, kvsStr(c08Table(code, s, opts)))
+			var ts []string
+			for _, t := range tabs {
+				ts = append(ts, kvsStr(t.KVs))
 			}
-			r.Viol = append(r.Viol, core.Violation{Sig: sig, Desc: fmt.Sprintf("tables(oldest first) %v: %s", tabs, fmt.Sprintf(f, a...)),
-				Case: core.J(c08Case{K: len(list), Opts: opts, Only: list})})
+			r.Viol = append(r.Viol, core.Violation{Sig: sig, Desc: fmt.Sprintf("tables(oldest first) %v: %s", ts, fmt.Sprintf(f, a...)), Case: replay})
 		}
 	}
 	defer func() {
@@ -178,13 +288,14 @@ func (c c08) checkList(list []int, opts int, need func(slot, code int) string, o
 	has := map[string]bool{}
 	shared := false
 	emptyKeyPresent := false
-	for s, code := range list {
-		for _, e := range c08Table(code, s, opts) {
-			if has[string(e.K)] {
+	for _, t := range tabs {
+		for _, e := range t.KVs {
+			nk := fam.norm(e.K)
+			if has[nk] {
 				shared = true
 			}
-			has[string(e.K)] = true
-			ref[string(e.K)] = e.V
+			has[nk] = true
+			ref[nk] = e.V
 			if len(e.K) == 0 {
 				emptyKeyPresent = true
 			}
@@ -221,8 +332,8 @@ func (c c08) checkList(list []int, opts int, need func(slot, code int) string, o
 	var readers []sstables.SSTableReaderI
 	open := func() []sstables.SSTableReaderI {
 		var rs []sstables.SSTableReaderI
-		for s, code := range list {
-			rd, err := openTable(need(s, code), tblR{RBuf: 4096})
+		for _, t := range tabs {
+			rd, err := openTable(t.Dir, tblR{RBuf: 4096, Cmp: fam.cmp, Loader: loaderFor(fam.cmp)})
 			if err != nil {
 				panic(fmt.Sprintf("cannot open input table: %v", err))
 			}
@@ -238,13 +349,45 @@ func (c c08) checkList(list []int, opts int, need func(slot, code int) string, o
 	}()
 	r.Traces++
 	if shared {
-		r.Keys = append(r.Keys, core.HashKey(fmt.Sprint(opts), fmt.Sprint(list)))
+		r.Keys = append(r.Keys, core.HashKey(id))
 	}
-	super := sstables.NewSuperSSTableReader(readers, skiplist.BytesComparator{})
-	probeKeys := [][]byte{{}, []byte("a"), []byte("b"), []byte("c"), []byte("0")}
-	for _, k := range probeKeys {
+	super := sstables.NewSuperSSTableReader(readers, comparator)
+	kvsEq := func(a, b []kv) bool { // keys compared up to comparator equality
+		if len(a) != len(b) {
+			return false
+		}
+		for i := range a {
+			if fam.norm(a[i].K) != fam.norm(b[i].K) || !recEq(a[i].V, b[i].V) {
+				return false
+			}
+		}
+		return true
+	}
+	rangeOf := func(sorted []kv, lo, hi []byte, hasHi bool) []kv {
+		var out []kv
+		for _, e := range sorted {
+			if cmpF(e.K, lo) >= 0 && (!hasHi || cmpF(e.K, hi) <= 0) {
+				out = append(out, e)
+			}
+		}
+		return out
+	}
+	for _, k := range fam.probes {
+		// point lookups go through the byte-wise bloom filter and hash of each table, so they are only defined for the
+		// spelling that was written: skip a probe that some table holds under a different (comparator-equal) spelling
+		otherSpelling := false
+		for _, t := range tabs {
+			for _, e := range t.KVs {
+				if fam.norm(e.K) == fam.norm(k) && !bytes.Equal(e.K, k) {
+					otherSpelling = true
+				}
+			}
+		}
+		if otherSpelling {
+			continue
+		}
 		r.Evals += 2
-		want, ok := ref[string(k)]
+		want, ok := ref[fam.norm(k)]
 		got, err := super.Get(k)
 		if !ok {
 			if !errors.Is(err, sstables.NotFound) {
@@ -258,7 +401,7 @@ func (c c08) checkList(list []int, opts int, need func(slot, code int) string, o
 			viol("", "stacked Contains(%s)=%v,%v want %v", keyStr(k), cgot, err, ok)
 		}
 	}
-	limit := len(keys)*len(list) + 4
+	limit := len(keys)*len(tabs) + 4
 	wantLive := live(false)
 	r.Evals++
 	if it, err := super.Scan(); err != nil {
@@ -266,7 +409,7 @@ func (c c08) checkList(list []int, opts int, need func(slot, code int) string, o
 	} else if got, err := drain(it, limit); err != nil || !kvsEq(normKeys(got), wantLive) {
 		viol(d6, "stacked Scan=%s,%v want %s", kvsStr(got), err, kvsStr(wantLive))
 	}
-	bounds := [][]byte{{}, []byte("0"), []byte("a"), []byte("aa"), []byte("b"), []byte("c")}
+	bounds := fam.bounds
 	for _, lo := range bounds {
 		r.Evals++
 		want := rangeOf(wantLive, lo, nil, false)
@@ -278,8 +421,8 @@ func (c c08) checkList(list []int, opts int, need func(slot, code int) string, o
 		for _, hi := range bounds {
 			r.Evals++
 			it, err := super.ScanRange(lo, hi)
-			if bytes.Compare(lo, hi) > 0 {
-				if err == nil && len(list) > 0 {
+			if cmpF(lo, hi) > 0 {
+				if err == nil && len(tabs) > 0 {
 					viol("", "stacked ScanRange(%s,%s) lower>upper accepted", keyStr(lo), keyStr(hi))
 				}
 				continue
@@ -299,7 +442,7 @@ func (c c08) checkList(list []int, opts int, need func(slot, code int) string, o
 		skipEmpty bool
 	}
 	for _, rd := range []red{{"ScanReduceLatestWins", sstables.ScanReduceLatestWins, false}, {"ScanReduceLatestWinsSkipTombstones", sstables.ScanReduceLatestWinsSkipTombstones, true}} {
-		got, err := c.mergeInto(readers, outDir, func(m sstables.SSTableMerger, its []sstables.SSTableMergeIteratorContext, w sstables.SSTableStreamWriterI) error {
+		got, err := c.mergeInto(readers, fam.cmp, outDir, func(m sstables.SSTableMerger, its []sstables.SSTableMergeIteratorContext, w sstables.SSTableStreamWriterI) error {
 			return m.MergeCompact(its, w, rd.f)
 		})
 		r.Evals++
@@ -310,7 +453,7 @@ func (c c08) checkList(list []int, opts int, need func(slot, code int) string, o
 		}
 	}
 	if !shared {
-		got, err := c.mergeInto(readers, outDir, func(m sstables.SSTableMerger, its []sstables.SSTableMergeIteratorContext, w sstables.SSTableStreamWriterI) error {
+		got, err := c.mergeInto(readers, fam.cmp, outDir, func(m sstables.SSTableMerger, its []sstables.SSTableMergeIteratorContext, w sstables.SSTableStreamWriterI) error {
 			return m.Merge(its, w)
 		})
 		r.Evals++
@@ -331,7 +474,7 @@ func normKeys(a []kv) []kv {
 	return a
 }
 
-func (c c08) mergeInto(rds []sstables.SSTableReaderI, outDir string,
+func (c c08) mergeInto(rds []sstables.SSTableReaderI, cmpName string, outDir string,
 	run func(m sstables.SSTableMerger, its []sstables.SSTableMergeIteratorContext, w sstables.SSTableStreamWriterI) error) ([]kv, error) {
 	var its []sstables.SSTableMergeIteratorContext
 	for s, rd := range rds {
@@ -343,14 +486,14 @@ func (c c08) mergeInto(rds []sstables.SSTableReaderI, outDir string,
 	}
 	removeAll(outDir)
 	mustMkdir(outDir)
-	w, err := sstables.NewSSTableStreamWriter(sstables.WriteBasePath(outDir), sstables.WithKeyComparator(skiplist.BytesComparator{}), sstables.WriteBufferSizeBytes(4096))
+	w, err := sstables.NewSSTableStreamWriter(sstables.WriteBasePath(outDir), sstables.WithKeyComparator(cmpFor(cmpName)), sstables.WriteBufferSizeBytes(4096))
 	if err != nil {
 		return nil, err
 	}
 	if err := w.Open(); err != nil {
 		return nil, err
 	}
-	mErr := run(sstables.NewSSTableMerger(skiplist.BytesComparator{}), its, w)
+	mErr := run(sstables.NewSSTableMerger(cmpFor(cmpName)), its, w)
 	cErr := w.Close()
 	if mErr != nil {
 		return nil, fmt.Errorf("merge: %w", mErr)
@@ -358,7 +501,7 @@ func (c c08) mergeInto(rds []sstables.SSTableReaderI, outDir string,
 	if cErr != nil {
 		return nil, fmt.Errorf("close: %w", cErr)
 	}
-	out, err := openTable(outDir, tblR{RBuf: 4096})
+	out, err := openTable(outDir, tblR{RBuf: 4096, Cmp: cmpName, Loader: loaderFor(cmpName)})
 	if err != nil {
 		return nil, fmt.Errorf("open merged table: %w", err)
 	}
@@ -369,4 +512,62 @@ func (c c08) mergeInto(rds []sstables.SSTableReaderI, outDir string,
 	}
 	got, err := drain(it, 20)
 	return normKeys(got), err
+}
+
+// legacyCase: stacks of one fixture table with tables written by the current writer.
+func (c c08) legacyCase(w *core.WCtx, cs c08Case) core.Result {
+	var r core.Result
+	fx := legacyTables()[cs.Legacy-1]
+	fam := c08Family(3, true)
+	base := w.Dir()
+	built := map[[2]int]string{}
+	need := func(slot, code int) c08Tab {
+		key := [2]int{slot, code}
+		d, ok := built[key]
+		if !ok {
+			d = filepath.Join(base, fmt.Sprintf("s%d_t%d", slot, code))
+			mustMkdir(d)
+			if err := writeTable(d, c08LegacyTable(code, slot), tblW{Writer: "stream", DataComp: 2}); err != nil {
+				panic(fmt.Sprintf("cannot build input table: %v", err))
+			}
+			built[key] = d
+		}
+		return c08Tab{d, c08LegacyTable(code, slot)}
+	}
+	legacy := c08Tab{fx.Dir(), fx.KVs}
+	outDir := filepath.Join(base, "out")
+	run := func(tabs []c08Tab, codes []int) {
+		if len(r.Viol) >= 6 {
+			return
+		}
+		c.checkTabs(tabs, fam, core.J(c08Case{Legacy: cs.Legacy, Pos: cs.Pos, First: cs.First, Only: codes}), fmt.Sprint("legacy", cs.Legacy, cs.Pos, codes), outDir, &r)
+	}
+	switch cs.Pos {
+	case 0, 1:
+		if cs.Only == nil {
+			run([]c08Tab{legacy}, nil)
+		}
+		for code := 0; code < 81; code++ {
+			if cs.Only != nil && cs.Only[0] != code {
+				continue
+			}
+			if cs.Pos == 0 {
+				run([]c08Tab{legacy, need(1, code)}, []int{code})
+			} else {
+				run([]c08Tab{need(0, code), legacy}, []int{code})
+			}
+		}
+	default:
+		for code := 0; code < 81; code++ {
+			if cs.Only != nil && cs.Only[0] != code {
+				continue
+			}
+			run([]c08Tab{need(0, cs.First), legacy, need(2, code)}, []int{code})
+		}
+	}
+	r.Outcome = fmt.Sprintf("legacy pos=%d ok=%v", cs.Pos, len(r.Viol) == 0)
+	if cs.Pos == 0 && cs.Legacy == 1 {
+		r.Sample = string(core.J(map[string]any{"fixture": fx.Name, "fixture_content": kvsStr(fx.KVs), "stacked_with": "81 current tables over 4 keys"}))
+	}
+	return r
 }
